@@ -145,10 +145,25 @@ Next == /\\ ~done /\\ done' = TRUE
     r = vlib.run_tlc("MC_maps", "MC_maps.cfg", [], workdir=wd, workers=1, timeout=300, keep_prints=["CASE"])
     cases = [o for (_, o) in r.prints]
     scs = []
-    for i, cse in enumerate(cases):
+    # every case also with identifiers at the ends of the 16-bit range (node 0 / 65535, party 0 / 65535): order-preserving renaming of
+    # the nodes (11 -> 0 keeps the node under test the smallest), arbitrary renaming of the parties
+    nn = sorted(int(k) for k in cases[0]["map"]) if cases else []
+    edge_nodes = dict(zip(nn, [0, 1, 2, 65535] if len(nn) == 4 else [0, 1, 2, 65534, 65535]))
+    pp = sorted(set(v for c in cases for v in c["map"].values()))
+    edge_parties = dict(zip(pp, [65535, 0, 7] if len(pp) == 3 else [65535, 0, 7, 32768]))
+    edged = []
+    for cse in cases:
+        if tr == "quick" and not cse["dup"] and len(edged) % 4:
+            edged.append(None)      # quick: every duplicate-party case, a quarter of the others
+            continue
+        edged.append(dict(map={str(edge_nodes[int(k)]): edge_parties[v] for k, v in cse["map"].items()},
+                          parts=sorted(edge_nodes[p] for p in cse["parts"]), dup=cse["dup"], self=edge_nodes[11]))
+    for i, cse in enumerate(cases + [e for e in edged if e]):
         mp = {str(k): v for k, v in cse["map"].items()}
         parts = sorted(cse["parts"])
-        if tr == "thorough" and i % 3 == 0:
+        if "self" in cse:
+            self_ = cse["self"]
+        elif tr == "thorough" and i % 3 == 0:
             # the same case with identifiers drawn from the 16-bit range (order-preserving renaming of nodes, arbitrary of parties)
             nodes = sorted(rng.sample(range(256, 65536), 5))
             ren = dict(zip([11, 12, 13, 14, 15], nodes))
